@@ -174,7 +174,7 @@ func runC11(x *Ctx) {
 			}
 			n++
 			arg := r.Args[0].Args[0]
-			want := "call[pkg/policy.isOrdered](typeassert[pkg/policy.equality](arg0)#0.value,call[(pkg/policy/selector.Selector).Select](typeassert[pkg/policy.equality](arg0)#0.selector,arg1)#0,func(pkg/policy." + wantCmp[k] + "))"
+			want := "call[pkg/policy.isOrdered](typeassert[pkg/policy.equality](arg0)#0.value," + selectCall(x, "typeassert[pkg/policy.equality](arg0)#0.selector", "arg1") + "#0,func(pkg/policy." + wantCmp[k] + "))"
 			if arg.String() != want {
 				ok = false
 				detail += "evaluates " + arg.String() + "\n"
@@ -275,7 +275,7 @@ func runC11(x *Ctx) {
 				continue
 			}
 			n++
-			want := "call[github.com/ipld/go-ipld-prime/datamodel.DeepEqual](typeassert[pkg/policy.equality](arg0)#0.value,call[(pkg/policy/selector.Selector).Select](typeassert[pkg/policy.equality](arg0)#0.selector,arg1)#0)"
+			want := "call[github.com/ipld/go-ipld-prime/datamodel.DeepEqual](typeassert[pkg/policy.equality](arg0)#0.value," + selectCall(x, "typeassert[pkg/policy.equality](arg0)#0.selector", "arg1") + "#0)"
 			if r.Args[0].Args[0].String() != want {
 				ok = false
 				detail += "evaluates " + r.Args[0].Args[0].String() + "\n"
@@ -332,7 +332,7 @@ func runC11(x *Ctx) {
 	// ---------------- R4
 	for _, k := range []string{"==", ">", ">=", "<", "<=", "like", "all", "any"} {
 		typ := evalCases[k]
-		sel := "call[(pkg/policy/selector.Selector).Select](typeassert[" + typ + "](arg0)#0.selector,arg1)"
+		sel := selectCall(x, "typeassert["+typ+"](arg0)#0.selector", "arg1")
 		check := func(name string, A paths.Assign, want int64) {
 			out := map[string]bool{}
 			n := 0
@@ -356,7 +356,7 @@ func runC11(x *Ctx) {
 		check("optional-miss", atoms(map[string]bool{eqs(sel+"#1", "const(nil)"): true, eqs(sel+"#0", "const(nil)"): true}), mr["OptionalNoData"])
 	}
 	{
-		sel := "call[(pkg/policy/selector.Selector).Select](typeassert[pkg/policy.wildcard](arg0)#0.selector,arg1)"
+		sel := selectCall(x, "typeassert[pkg/policy.wildcard](arg0)#0.selector", "arg1")
 		as := "invoke[github.com/ipld/go-ipld-prime.Node.AsString](" + sel + "#0)#1"
 		n, ok := 0, true
 		for _, p := range ofKind("like") {
@@ -382,7 +382,7 @@ func runC11(x *Ctx) {
 		x.C.Obl("C11.R4", "like-wiring", x.pos(ms), "like evaluates pattern.Match(selected string)", okW && nW == 1, "")
 	}
 	for _, k := range []string{"all", "any"} {
-		sel := "call[(pkg/policy/selector.Selector).Select](typeassert[pkg/policy.quantifier](arg0)#0.selector,arg1)"
+		sel := selectCall(x, "typeassert[pkg/policy.quantifier](arg0)#0.selector", "arg1")
 		it := "invoke[github.com/ipld/go-ipld-prime.Node.ListIterator](" + sel + "#0)"
 		n, ok := 0, true
 		for _, p := range ofKind(k) {
@@ -482,12 +482,11 @@ func decoderCases(x *Ctx) map[string]string {
 
 // foldTable reads the per-child transition table of a connective and checks the laws.
 func foldTable(x *Ctx, ms *ssa.Function, k string, ps []*paths.Path, mr map[string]int64, byVal map[int64]string) {
-	fi := paths.Info(ms)
-	// the loop of this connective
+	// the loop of this connective (in matchStatement, or in a helper spliced into its paths)
 	var loop *paths.Loop
 	for _, p := range ps {
 		for _, b := range p.Blocks {
-			if l := fi.LoopOf(b); l != nil {
+			if l := paths.Info(b.Parent()).LoopOf(b); l != nil {
 				loop = l
 			}
 		}
@@ -661,4 +660,10 @@ func permute(l []string, f func([]string)) {
 		}
 	}
 	rec(0)
+}
+
+// selectCall renders selector.Select(sel, subject) as matchStatement's paths show it (Select is a
+// one-line wrapper of resolve today).
+func selectCall(x *Ctx, sel, subject string) string {
+	return x.call("(pkg/policy/selector.Selector).Select", sel, subject)
 }
